@@ -40,6 +40,9 @@ def strayEvents : List Event :=
 def collisionEvents : List Event :=
   [.vote (some (mkVote 0 blkX)), .vote (some (mkVote 1 blkY)), .vote (some (mkVote 2 blkX))]
 
+/-- the state after the stray-precommit history -/
+def sStray : VoteSet := run fresh4 strayEvents
+
 -- ---------------------------------------------------------------- (1) per-block sums
 
 /-- (1) `votesByBlock[k].sum` is exactly the power of the distinct validators whose vote is counted for `k`. -/
@@ -68,6 +71,11 @@ theorem counted_votes_valid {s : VoteSet} (hr : Reachable s) {k j : Nat} {w : Vo
   obtain ⟨bv, hb, hw⟩ := h
   obtain ⟨wf, hk⟩ := (reachable_inv hr).1.wfBV k bv j w hb hw
   exact ⟨wf.idx, wf.height, wf.round, wf.type, wf.sigOk, wf.addr, hk⟩
+
+example : Reachable sStray ∧ ∃ bv, alGet blkA.key sStray.vbb = some bv ∧ bv.sum = 3 :=
+  ⟨⟨_, _, _, _, _, rfl⟩, _, rfl, rfl⟩
+
+example : Tracked sStray blkB.key 3 (mkVote 3 blkB) := ⟨_, rfl, rfl⟩
 
 -- ---------------------------------------------------------------- (2) total sum
 
@@ -125,6 +133,8 @@ example : Reachable (run fresh4 strayEvents) ∧ (run fresh4 strayEvents).maj23 
     countedFor (run fresh4 strayEvents) blkA.key = 3 ∧ (run fresh4 strayEvents).total = 4 :=
   ⟨⟨_, _, _, _, _, rfl⟩, by decide, by decide, by decide⟩
 
+example : 3 * countedFor sStray blkA.key > 2 * sStray.total := by decide
+
 -- ---------------------------------------------------------------- (4) the first majority never changes
 
 /-- (4) once `maj23 = b`, it is `b` after any further events. -/
@@ -165,6 +175,8 @@ theorem quorum_fits_int64 {s : VoteSet} (hr : Reachable s) (ht : s.total ≤ max
   refine ⟨by omega, by unfold VoteSet.quorum; omega, ?_, ?_⟩
   · rw [hI.sumAll]; exact sumPow_le_total _ _
   · intro k bv hb; rw [hI.sumBV k bv hb]; exact sumPow_le_total _ _
+
+example : hasTwoThirdsAny sStray = true ∧ hasAll sStray = true ∧ sStray.total ≤ maxTotalVotingPower := by decide
 
 -- ---------------------------------------------------------------- (6) conflicting votes
 
@@ -236,6 +248,22 @@ example :
     countedFor (addVote s' (some (mkVote 0 blkA))).1 blkA.key = 1 := by
   decide
 
+/-- a vote with a bad signature is not `Verified` (hypothesis of `rejected_vote_no_effect`) -/
+example : ¬ Verified fresh4 { mkVote 0 blkA with sigOk := false } := fun h => absurd h.2.2.2.2.2.2 (by decide)
+
+/-- a first valid vote is `Verified` (hypotheses of `first_vote_accepted`) -/
+example : Verified fresh4 (mkVote 0 blkA) ∧ at? fresh4.votes (mkVote 0 blkA).idx.toNat = none :=
+  ⟨⟨by decide, by decide, by decide, by decide, ⟨1, by decide⟩, by decide, by decide⟩, by decide⟩
+
+/-- a valid vote for A by a validator whose canonical vote is for B (hypotheses of
+`conflict_reported_partial` and `conflict_reported_unless_key_collision`) -/
+example :
+    let s := run fresh4 [.vote (some (mkVote 0 blkB))]
+    Verified s (mkVote 0 blkA) ∧ at? s.votes (mkVote 0 blkA).idx.toNat = some (mkVote 0 blkB) ∧
+    PassesChecks s (mkVote 0 blkA) ∧ ∀ w ∈ knownVotes s (mkVote 0 blkA).idx.toNat, w.block.key ≠ (mkVote 0 blkA).block.key :=
+  ⟨⟨by decide, by decide, by decide, by decide, ⟨1, by decide⟩, by decide, by decide⟩, by decide,
+   ⟨by decide, by decide, by decide, by decide, ⟨1, by decide⟩, by decide⟩, by decide⟩
+
 /-- The clause as the statement words it, with BlockIDs: a valid vote of a validator whose canonical
 vote is for a DIFFERENT BlockID, none of whose known votes is for the same BlockID, is reported
 as conflicting.  False — see `conflict_reported_counterexample`. -/
@@ -285,6 +313,20 @@ on which `Key()` is injective. -/
 theorem maj23_block_partial {s : VoteSet} (hr : Reachable s) {b : BlockID} (h : s.maj23 = some b)
     (hinj : ∀ j w, Tracked s b.key j w → w.block = b) : 3 * countedForBlock s b > 2 * s.total := by
   rw [countedForBlock_eq hinj]; exact maj23_has_quorum hr h
+
+/-- hypotheses of `maj23_block_partial`: every vote counted under A's key is for A -/
+example : sStray.maj23 = some blkA ∧ ∀ j w, Tracked sStray blkA.key j w → w.block = blkA := by
+  refine ⟨by decide, ?_⟩
+  rintro j w ⟨bv, hb, hw⟩
+  have h : alGet blkA.key sStray.vbb =
+      some ⟨false, [some (mkVote 0 blkA), some (mkVote 1 blkA), some (mkVote 2 blkA), none], 3⟩ := rfl
+  rw [h] at hb; cases hb
+  match j with
+  | 0 => cases hw; rfl
+  | 1 => cases hw; rfl
+  | 2 => cases hw; rfl
+  | 3 => cases hw
+  | j + 4 => simp [at?] at hw
 
 -- ---------------------------------------------------------------- (7) MakeCommit
 
